@@ -189,6 +189,9 @@ type Config struct {
 	C13        bool
 	C14        bool // UnminedTxs order in every state
 	MaxStates  int
+	// Abort, if set, is polled between transitions: the caller has seen enough
+	// violations (the verdict is settled) and the exploration stops, capped.
+	Abort func() bool
 }
 
 // Report receives violations.
@@ -332,7 +335,7 @@ func Explore(env *Env, b *ledger.Built, cfg Config, outerReport Report) (Stats, 
 				report("C01", "event-refused:"+e.Kind,
 					fmt.Sprintf("chain-consistent event refused or failed: %v", err), u, h2)
 			}
-			if (cfg.MaxStates > 0 && len(states) >= cfg.MaxStates) || nviol >= 40 {
+			if (cfg.MaxStates > 0 && len(states) >= cfg.MaxStates) || nviol >= 40 || (cfg.Abort != nil && cfg.Abort()) {
 				st.Capped = true
 				queue = nil
 				break
